@@ -140,6 +140,14 @@ Fixpoint run (c : cache) (ops : list op) : list (option item) * outcome cache :=
     end
   end.
 
+(* number of gets in a history = number of outputs of a complete run *)
+Fixpoint ngets (ops : list op) : nat :=
+  match ops with
+  | [] => O
+  | OGet _ _ _ :: rest => S (ngets rest)
+  | OSet _ _ _ _ _ :: rest => ngets rest
+  end.
+
 (* ---- the call sites in static.rs ----
    cache_check:        if config.cache.size_limit > 0 { cache.read().get(uri, host) } else None
    inner_file_handler: contents = read file; if config.cache.size_limit >= contents.len() { cache.write().set(..) }
